@@ -22,3 +22,39 @@ package embedding
 //@   invariant len(sum) == idx.Dimension && fresh(sum) && count >= 0 && len(vec) == idx.Dimension
 //@ loop 3
 //@   invariant len(sum) == idx.Dimension && fresh(sum)
+
+// ---------------------------------------------------------------------------
+// Loaders of untrusted files (C19): no crash, termination, and no allocation larger than a
+// constant number of elements whatever the header says (opt alloc-bound).
+//@ func preallocHint
+//@   modifies nothing
+//@   ensures[C19.prealloc-cap] 0 <= result && result <= 65536 && result <= n
+
+//@ func LoadWordVectors
+//@   opt alloc-bound 65536
+//@   modifies nothing
+//@   ensures[C19.load-vectors] (result1 == nil) <==> (result0 != nil)
+//@   ensures[C19.load-vectors-wf] result1 == nil ==> fresh(result0) && wfEmb(result0)
+//@ loop 1
+//@   invariant idx != nil && fresh(idx) && idx.Dimension == 100 && idx.WordVectors != nil && fresh(idx.WordVectors) && (forall w string :: (w in idx.WordVectors) ==> len(idx.WordVectors[w]) == 100) && 0 <= i && i <= vocabSize
+//@   decreases vocabSize - i
+
+//@ func (*Index).LoadCommandEmbeddings
+//@   requires idx.Dimension >= 0 && idx.Dimension <= 65536
+//@   opt alloc-bound 65536
+//@   modifies idx.*
+//@   ensures[C19.load-embeddings-keeps] idx.Dimension == old(idx.Dimension) && idx.WordVectors == old(idx.WordVectors)
+//@   ensures[C19.load-embeddings-error] result != nil ==> idx.CmdEmbeddings == old(idx.CmdEmbeddings)
+//@ loop 1
+//@   invariant fresh(embeddings) && 0 <= i && i <= numCommands && dimension == idx.Dimension && idx.Dimension == old(idx.Dimension) && idx.WordVectors == old(idx.WordVectors) && idx.CmdEmbeddings == old(idx.CmdEmbeddings)
+//@   decreases numCommands - i
+
+// CosineSimilarity: 0 for empty or mismatched vectors and for a zero vector (symmetry and the
+// range [-1,1]: bounded check, the inductive Cauchy-Schwarz argument is out of reach).
+//@ pure func allZero(v []float32, n int) bool = forall k int :: 0 <= k && k < n ==> v[k] == 0.0
+//@ func CosineSimilarity
+//@   modifies nothing
+//@   ensures[C19.cosine-degenerate] (len(a) != len(b) || len(a) == 0) ==> result == 0.0
+//@   ensures[C19.cosine-zero-vector] len(a) == len(b) && (allZero(a, len(a)) || allZero(b, len(b))) ==> result == 0.0
+//@ loop 1
+//@   invariant len(a) == len(b) && (allZero(a, $i) ==> normA == 0.0) && (allZero(b, $i) ==> normB == 0.0)
